@@ -167,7 +167,15 @@ func (w *World) buildVC(fn *ssa.Function) *VC {
 		vc.unsupported(fr, "function without body")
 		return vc
 	}
-	fr.execRegion(nil, fn.Blocks[0], []*Edge{{cond: tTrue, st: st}}, nil, false)
+	func() {
+		defer func() {
+			if r := recover(); r != nil {
+				// a construct the generator cannot handle: the function is reported as not verified
+				vc.unsupported(fr, fmt.Sprintf("generator failure: %v", r))
+			}
+		}()
+		fr.execRegion(nil, fn.Blocks[0], []*Edge{{cond: tTrue, st: st}}, nil, false)
+	}()
 	return vc
 }
 
